@@ -91,10 +91,14 @@ def build(scratch, members=None, extra_members=()):
                 txt += '\n[features]\nverif-enable = ["fastrace/enable"]\n'
         open(ct, "w").write(txt)
 
+    # harness and support sources are copied too (replay edits the copies, never /verif)
+    shutil.copytree(os.path.join(OVERLAY, "harness"), os.path.join(scratch, "verif-harness"))
+    shutil.copytree(os.path.join(OVERLAY, "support"), os.path.join(scratch, "verif-support"))
+
     # in-crate harness modules (child modules see their parent's private items)
     for crate, files in IN_CRATE_HARNESSES.items():
         for rel, hfile in files:
-            hpath = os.path.join(OVERLAY, "harness", hfile)
+            hpath = os.path.join(scratch, "verif-harness", hfile)
             if not os.path.exists(hpath):
                 continue
             target = os.path.join(scratch, crate, rel)
@@ -108,8 +112,8 @@ def build(scratch, members=None, extra_members=()):
     src = open(lib).read()
     inject = (
         "#[cfg(kani)]\nextern crate self as fastrace;\n"
-        f'#[cfg(kani)]\n#[macro_use]\n#[path = "{OVERLAY}/support/verif_tls.rs"]\npub mod verif_tls;\n'
-        f'#[cfg(all(kani, feature = "enable"))]\n#[path = "{OVERLAY}/support/verif_api.rs"]\npub mod verif_api;\n'
+        f'#[cfg(kani)]\n#[macro_use]\n#[path = "{scratch}/verif-support/verif_tls.rs"]\npub mod verif_tls;\n'
+        f'#[cfg(all(kani, feature = "enable"))]\n#[path = "{scratch}/verif-support/verif_api.rs"]\npub mod verif_api;\n'
     )
     m = re.search(r"^pub mod collector;", src, re.M)
     if not m:
